@@ -7,8 +7,8 @@ wt="$1"; src="$2"; dst="$3"; shift 3
 cd "$wt" || exit 2
 cp "SEED/$src" "$dst"
 echo "== with the change applied:"; "$@" 2>&1 | tail -6; rc1=${PIPESTATUS[0]}
-git stash push -q -- $(git diff --name-only) || exit 2
+git diff > /tmp/seeddemo.$$.patch; git apply -R /tmp/seeddemo.$$.patch || exit 2
 echo "== with the change stashed:"; "$@" 2>&1 | tail -3; rc2=${PIPESTATUS[0]}
-git stash pop -q
+git apply /tmp/seeddemo.$$.patch; rm -f /tmp/seeddemo.$$.patch
 rm -f "$dst"
 echo "== demo with change rc=$rc1 (expect !=0), without rc=$rc2 (expect 0)"
